@@ -71,7 +71,7 @@ def fuzz_step(run, total_runs, jobs):
     exes_n = D.build_or_violation(run, ['introspect'], 'n')
     if not exes or not exes_n: return
     D.factors_file(exes_n['introspect'])
-    intro = json.load(open(os.path.join(D.tree_dir(), 'introspect.json')))
+    intro = json.load(open(D.intro_path(exes_n['introspect'])))
     work = os.path.join(D.tree_dir(), 'fuzz-%s-%d' % (run.prop, os.getpid()))
     shutil.rmtree(work, ignore_errors=True); os.makedirs(work)
     seeded = os.path.join(work, 'seed-corpus'); os.makedirs(seeded)
@@ -251,7 +251,7 @@ def c19(run):
     work = os.path.join(D.tree_dir(), 'c19-%s-%d' % (run.tier, os.getpid()))
     out = work + '.json'
     vt = shutil.which('python3-vt') or sys.executable
-    p = subprocess.run([vt, os.path.join(D.VERIF, 'tools', 'c19.py'), D.REPO, work, os.path.join(D.gen_dir(), 'scan.json'), os.path.join(D.tree_dir(), 'introspect.json'), run.tier, str(D.SEED), out],
+    p = subprocess.run([vt, os.path.join(D.VERIF, 'tools', 'c19.py'), D.REPO, work, os.path.join(D.gen_dir(), 'scan.json'), D.intro_path(exes['introspect']), run.tier, str(D.SEED), out],
                        stdout=subprocess.PIPE, stderr=subprocess.STDOUT, text=True)
     if p.returncode != 0 or not os.path.exists(out):
         run.fails.append(dict(kind='harness', key='c19', msg='program generator failed: ' + p.stdout[-1500:])); return
